@@ -47,11 +47,14 @@ def _is_registration_options(object_: Any) -> bool:
 def _register_capabilities_hooks(converter: cattrs.Converter) -> cattrs.Converter:
     def _text_document_sync_hook(
         object_: Any, _: type
-    ) -> Union[OptionalPrimitive, lsp_types.TextDocumentSyncOptions]:
+    ) -> Optional[
+        Union[lsp_types.TextDocumentSyncKind, lsp_types.TextDocumentSyncOptions]
+    ]:
         if object_ is None:
             return None
         if isinstance(object_, (bool, int, str, float)):
-            return object_
+            # `TextDocumentSyncKind` does not support custom values.
+            return converter.structure(object_, lsp_types.TextDocumentSyncKind)
         return converter.structure(object_, lsp_types.TextDocumentSyncOptions)
 
     def _notebook_document_sync_hook(
